@@ -98,7 +98,15 @@ func runsFor(prop, tier string) []run {
 		c3 := c
 		c3.InitOps = []string{"W:0:24", "SnapA", "W:0:8", "SnapU", "W:8:8", "SnapA", "W:16:8", "SnapA", "W:0:16", "SnapU", "W:8:16"}
 		c3.MaxSnaps = 7
+		// held-hole schedules: the hole-punching goroutine is slow, queued holes stay pending across later events
+		c4 := c
+		c4.Alphabet = []string{"Hold", "Release", "W", "SnapU", "SnapA", "Rm", "Reload", "ReloadULM", "Revert", "ReopenP", "Delete"}
+		c4.WShapes = [][2]int{{0, 8}, {8, 8}, {0, 16}}
+		c4.Blocks = 2
+		c4.InitOps = []string{"W:0:16", "SnapU", "W:0:16", "SnapA"}
+		c4.MaxSnaps = 5
 		return []run{
+			{"2blk-held-holes", c4, pick(4, 6), minutes(pickf(0.6, 8))},
 			{"3blk-aligned-punch", c, pick(5, 7), minutes(pickf(1.7, 16))},
 			{"3blk-from-two-user-snapshots", c3, pick(3, 4), minutes(pickf(0.9, 8))},
 			{"2blk-mixed-punch", c2, pick(5, 7), minutes(pickf(0.8, 8))},
